@@ -20,6 +20,7 @@ use super::chain::{flat_plan, SynChain, T0};
 use super::client::dummy_consensus;
 use super::out::{catch, coq_list, Out, Val};
 use super::prng::Rng;
+use super::prover;
 use super::world::*;
 use crate::protocols::light_client::constant::{FETCH_HEADER_TX_TOKEN, REFRESH_PEERS_TOKEN};
 use crate::protocols::light_client::prelude::VerifiableHeaderPatch;
@@ -427,6 +428,7 @@ pub(crate) fn run(seed: u64, n: u64, out: &mut Out) {
 
         // ---- SendBlock: the body of a proven matched block ----
         block_body_cases(&mut rng, &consensus, world, out);
+        if world % 4 == 0 { withheld_answer_case(&mut rng, &consensus, world, &guard, out); }
     }
 }
 
@@ -516,4 +518,85 @@ fn block_body_cases(rng: &mut Rng, consensus: &ckb_chain_spec::consensus::Consen
     };
     let _ = problems;
     out.case(&format!("body-index-{}", world), &["send-block", "index-after-bodies"], "(VN 1)", &Val::n(1), oracle, &format!("index of script {} after {} SendBlock messages (some with foreign bodies)", sid + 1, n_case));
+}
+
+
+/// C16: the peer that was asked for a header / transaction never answers, but stays alive otherwise: it keeps announcing new
+/// tips.  The message timeout of the fetch request must still take it out (refresh tick), after which the request goes to the
+/// other proven peer and the user's fetch ends as fetched.
+fn withheld_answer_case(rng: &mut Rng, consensus: &ckb_chain_spec::consensus::Consensus, world: u64, guard: &ckb_systemtime::FaketimeGuard, out: &mut Out) {
+    use crate::protocols::light_client::constant::REFRESH_PEERS_TOKEN;
+    let mut now = T0 + 5_000;
+    guard.set_faketime(now);
+    let pool: Vec<packed::Script> = (1..=3u8).map(|i| pool_script(7, &[i])).collect();
+    let mut gen = TxGen::new(pool, 77_000 + world * 100, 2);
+    let len = rng.range(24, 36);
+    let bc = BodyChain::new(rng, flat_plan(8, 6, 5), len, 500 + world, &mut gen);
+    let tip = bc.tip();
+    let h0 = tip - 3;
+    let mut net = Net::new(&bc.chain, consensus, 5, 2, 10);
+    let (pa, pb) = (PeerIndex::new(1), PeerIndex::new(2));
+    if !net.prove_peer(pa, &bc.chain, h0) || !net.prove_peer(pb, &bc.chain, h0) { out.stat("c02-withheld-unproven", &format!("{}", world)); return; }
+    let swc = StorageWithChainData::new(net.storage.clone(), Arc::clone(&net.peers), Default::default());
+    let chain_rpc = ChainRpcImpl { swc: StorageWithChainData::new(net.storage.clone(), Arc::clone(&net.peers), Default::default()), consensus: Arc::new(consensus.clone()) };
+    let tx_rpc = TransactionRpcImpl { swc, consensus: Arc::new(consensus.clone()) };
+    let use_tx = false; // (a transactions proof takes the same road through fetch_headers_txs and the same timeout)
+    let bn = rng.range(1, h0 - 1);
+    let target_h = bc.chain.headers[bn as usize].hash();
+    let target_t = bc.chain.bodies[bn as usize][0].calc_tx_hash();
+    let mut problems: Vec<String> = Vec::new();
+    let mut log: Vec<String> = Vec::new();
+    if use_tx { let _ = tx_rpc.fetch_transaction(target_t.unpack()); } else { let _ = chain_rpc.fetch_header(target_h.unpack()); }
+    let r = net.lc_tick(FETCH_HEADER_TX_TOKEN);
+    let asked: Vec<PeerIndex> = r.sent.iter().filter(|(_, s)| matches!(s, Sent::GetBlocksProof(_) | Sent::GetTransactionsProof(_))).map(|(p, _)| *p).collect();
+    if asked.len() != 1 { out.stat("c02-withheld-no-request", &format!("{}", world)); return; }
+    let silent = asked[0];
+    let other = if silent == pa { pb } else { pa };
+    log.push(format!("{} for block #{} sent to peer {}", if use_tx { "GetTransactionsProof" } else { "GetBlocksProof" }, bn, silent.value()));
+    // both peers keep announcing their growing chain; the asked one never answers the fetch request
+    let announce = |net: &mut Net, p: PeerIndex, h: u64| {
+        let content = packed::SendLastState::new_builder().last_header(bc.chain.packed_vheader(h)).build();
+        net.lc_recv(p, packed::LightClientMessage::new_builder().set(content).build().as_bytes())
+    };
+    let mut height = h0;
+    let mut gone = false;
+    for round in 0..6u64 {
+        now += 25_000;
+        guard.set_faketime(now);
+        if height < tip { height += 1; }
+        for p in [pa, pb] {
+            if p == silent && gone { continue; }
+            let r = announce(&mut net, p, height);
+            if r.panicked { problems.push(format!("[C10-handler-panic] SendLastState panicked: {}", super::last_panic())); }
+        }
+        let r = net.lc_tick(REFRESH_PEERS_TOKEN);
+        for d in &r.disconnects { if *d == silent && !gone { gone = true; net.lc_disconnect(silent); log.push(format!("{} s after the request the refresh tick disconnects the silent peer", (round + 1) * 25)); } }
+        // honest answers to whatever proof requests the ticks sent to the OTHER peer
+        let mut queue: Vec<(PeerIndex, Sent)> = r.sent;
+        queue.extend(net.lc_tick(FETCH_HEADER_TX_TOKEN).sent);
+        for (p, s) in queue {
+            if p != other { continue; }
+            match s {
+                Sent::GetLastStateProof(req) => {
+                    if let Some(plan) = prover::plan_response(&bc.chain, &req) {
+                        let numbers = plan.numbers();
+                        let content = packed::SendLastStateProof::new_builder().last_header(bc.chain.packed_vheader(plan.last))
+                            .headers(numbers.iter().map(|x| bc.chain.packed_vheader(*x)).collect::<Vec<_>>().pack()).proof(bc.chain.proof(plan.last, &numbers)).build();
+                        let _ = net.lc_recv(p, packed::LightClientMessage::new_builder().set(content).build().as_bytes());
+                    }
+                }
+                Sent::GetBlocksProof(req) => { if let Some(resp) = serve_blocks_proof(&bc.chain, &req) { let _ = net.lc_recv(p, blocks_proof_message(resp)); log.push(format!("round {}: the other peer answers GetBlocksProof", round)); } }
+                _ => {}
+            }
+        }
+    }
+    let fetched = if use_tx { net.storage.get_transaction_with_header(&target_t).is_some() } else { net.storage.get_header(&target_h).is_some() };
+    if !fetched {
+        let info = if use_tx { net.peers.get_tx_fetch_info(&target_t) } else { net.peers.get_header_fetch_info(&target_h) };
+        problems.push(format!("[C16-request-lost] the peer serving the fetch never answered for 150 s (it only kept announcing new tips); the request was {} and the fetch is still not fetched although another honest proven peer was there all the time (fetch info {:?})",
+            if gone { "released when the peer was disconnected" } else { "never timed out: the silent peer is still connected" }, info));
+    }
+    let oracle = if problems.is_empty() { Ok(()) } else { Err(problems.join(" || ")) };
+    out.case(&format!("withheld-{}", world), &["withheld-answer", if use_tx { "transaction" } else { "header" }], "(VN 1)", &Val::n(1), oracle,
+        &format!("chain {} blocks, two proven peers at #{}: {}", len, h0, log.join("; ")));
 }
